@@ -551,7 +551,7 @@ def literal_structures(full):
         yield [fx(), Lit([c]), Field(Expr("y"), conv="r")]
     pairs = list(itertools.product(allc, repeat=2))
     if not full:
-        pairs = pairs[::7]
+        pairs = pairs[::13]
     for a, b in pairs:
         yield [Lit([a, b])]
         yield [Lit([a]), fx(), Lit([b])]
